@@ -500,6 +500,9 @@ func (g *TxGen) GenRegistry(t *rapid.T) *RegTx {
 		if unauthorized == "" {
 			nrt := rt
 			res.OnSuccess = func() {
+				// (what counts is the descriptor this update REPLACES when it executes: an update generated from the same
+				// snapshot as an earlier one of the block carries the old thresholds and changes them back)
+				thresholdsChanged := thresholdsChanged || !sameThresholds(w.Runtime.Staking.Thresholds, nrt.Staking.Thresholds)
 				w.Runtime = &nrt
 				if thresholdsChanged {
 					g.W.RtThresholdsChanged = true
@@ -509,4 +512,17 @@ func (g *TxGen) GenRegistry(t *rapid.T) *RegTx {
 		}
 		return res
 	}
+}
+
+func sameThresholds(a, b map[staking.ThresholdKind]quantity.Quantity) bool {
+	if len(a) != len(b) {
+		return false
+	}
+	for k, v := range a {
+		w, ok := b[k]
+		if !ok || v.Cmp(&w) != 0 {
+			return false
+		}
+	}
+	return true
 }
